@@ -91,7 +91,30 @@ def getKey (kv : List (Y × Y)) (key : Txt) : Option Y :=
   | [] => none
   | (k, v) :: rest => if isStr k key then some v else getKey rest key
 
-def k (s : String) : Txt := ofString s
+/-! key and class names as code points (the kernel cannot evaluate `String` operations) -/
+def k_base : Txt := [98, 97, 115, 101]   -- "base"
+def k_ccode : Txt := [99, 99, 111, 100, 101]   -- "ccode"
+def k_class : Txt := [99, 108, 97, 115, 115]   -- "class"
+def k_condition : Txt := [99, 111, 110, 100, 105, 116, 105, 111, 110]   -- "condition"
+def k_flag : Txt := [102, 108, 97, 103]   -- "flag"
+def k_identifier : Txt := [105, 100, 101, 110, 116, 105, 102, 105, 101, 114]   -- "identifier"
+def k_imd : Txt := [105, 109, 100]   -- "imd"
+def k_immediate : Txt := [105, 109, 109, 101, 100, 105, 97, 116, 101]   -- "immediate"
+def k_index : Txt := [105, 110, 100, 101, 120]   -- "index"
+def k_latency : Txt := [108, 97, 116, 101, 110, 99, 121]   -- "latency"
+def k_memory : Txt := [109, 101, 109, 111, 114, 121]   -- "memory"
+def k_name : Txt := [110, 97, 109, 101]   -- "name"
+def k_offset : Txt := [111, 102, 102, 115, 101, 116]   -- "offset"
+def k_operands : Txt := [111, 112, 101, 114, 97, 110, 100, 115]   -- "operands"
+def k_port_pressure : Txt := [112, 111, 114, 116, 95, 112, 114, 101, 115, 115, 117, 114, 101]   -- "port_pressure"
+def k_post_indexed : Txt := [112, 111, 115, 116, 95, 105, 110, 100, 101, 120, 101, 100]   -- "post_indexed"
+def k_pre_indexed : Txt := [112, 114, 101, 95, 105, 110, 100, 101, 120, 101, 100]   -- "pre_indexed"
+def k_prefix : Txt := [112, 114, 101, 102, 105, 120]   -- "prefix"
+def k_prfop : Txt := [112, 114, 102, 111, 112]   -- "prfop"
+def k_register : Txt := [114, 101, 103, 105, 115, 116, 101, 114]   -- "register"
+def k_scale : Txt := [115, 99, 97, 108, 101]   -- "scale"
+def k_shape : Txt := [115, 104, 97, 112, 101]   -- "shape"
+def k_throughput : Txt := [116, 104, 114, 111, 117, 103, 104, 112, 117, 116]   -- "throughput"
 
 /-- `x.lower() if x else None` of the `RegisterOperand` constructor (prefix, shape); a truthy
     non-string would raise: `none` on the outside -/
@@ -114,34 +137,34 @@ def optTxt : Option Y → Option (Option Txt)
 /-- `operand_to_class(o)`; `none` = the loader raises (missing key, wrong type) -/
 def operandToClass : Y → Option EOperand
   | .map kv =>
-    match getKey kv (k "class") with
+    match getKey kv k_class with
     | none => none                                     -- KeyError 'class'
     | some c =>
-      if isStr c (k "register") then
-        match optTxt (getKey kv (k "name")), lowerOrNone (getKey kv (k "prefix")),
-              lowerOrNone (getKey kv (k "shape")) with
+      if isStr c k_register then
+        match optTxt (getKey kv k_name), lowerOrNone (getKey kv k_prefix),
+              lowerOrNone (getKey kv k_shape) with
         | some n, some p, some s => some (.reg n p s)
         | _, _, _ => none
-      else if isStr c (k "memory") then
-        match getKey kv (k "base"), getKey kv (k "offset"), getKey kv (k "index"), getKey kv (k "scale") with
+      else if isStr c k_memory then
+        match getKey kv k_base, getKey kv k_offset, getKey kv k_index, getKey kv k_scale with
         | some b, some o, some i, some s =>
-          some (.mem b o i s ((getKey kv (k "pre_indexed")).getD (.bool false))
-                             ((getKey kv (k "post_indexed")).getD (.bool false)))
+          some (.mem b o i s ((getKey kv k_pre_indexed).getD (.bool false))
+                             ((getKey kv k_post_indexed).getD (.bool false)))
         | _, _, _, _ => none
-      else if isStr c (k "immediate") then
-        match getKey kv (k "imd") with
+      else if isStr c k_immediate then
+        match getKey kv k_imd with
         | some t => some (.imm t)
         | none => none
-      else if isStr c (k "identifier") then some .ident
-      else if isStr c (k "condition") then
-        match getKey kv (k "ccode") with
+      else if isStr c k_identifier then some .ident
+      else if isStr c k_condition then
+        match getKey kv k_ccode with
         | some (.str t) => some (.cond (upper t))
         | _ => none
-      else if isStr c (k "flag") then
-        match getKey kv (k "name") with
+      else if isStr c k_flag then
+        match getKey kv k_name with
         | some _ => some .flag
         | none => none
-      else if isStr c (k "prfop") then some .prfop
+      else if isStr c k_prfop then some .prfop
       else some .other
   | _ => none
 
@@ -154,14 +177,14 @@ def mapOpt {α β : Type} (f : α → Option β) : List α → Option (List β)
 
 /-- one raw form (already given one name) → entry -/
 def formToEntry (raw : Nat) (name : Txt) (kv : List (Y × Y)) : Option Entry :=
-  match getKey kv (k "operands") with
+  match getKey kv k_operands with
   | some (.list ops) =>
     match mapOpt operandToClass ops with
     | some eops =>
       some { name := upper name, operands := eops,
-             tp := (getKey kv (k "throughput")).getD .null,
-             lat := (getKey kv (k "latency")).getD .null,
-             pp := (getKey kv (k "port_pressure")).getD .null, raw := raw }
+             tp := (getKey kv k_throughput).getD .null,
+             lat := (getKey kv k_latency).getD .null,
+             pp := (getKey kv k_port_pressure).getD .null, raw := raw }
     | none => none
   | _ => none
 
@@ -169,7 +192,7 @@ def formToEntry (raw : Nat) (name : Txt) (kv : List (Y × Y)) : Option Entry :=
 def singles : Nat → List Y → List (Option Entry)
   | _, [] => []
   | i, .map kv :: rest =>
-    match getKey kv (k "name") with
+    match getKey kv k_name with
     | some (.str n) => formToEntry i n kv :: singles (i + 1) rest
     | some (.list _) => singles (i + 1) rest
     | _ => none :: singles (i + 1) rest
@@ -184,7 +207,7 @@ def aliasNames : List Y → Option (List Txt)
 def aliases : Nat → List Y → List (Option Entry)
   | _, [] => []
   | i, .map kv :: rest =>
-    match getKey kv (k "name") with
+    match getKey kv k_name with
     | some (.list ns) =>
       (match aliasNames ns with
        | some names => names.map (fun n => formToEntry i n kv)
